@@ -4150,7 +4150,11 @@ template <class T> static void coincide_case (vp::Ctx& c, const char* tn)
                 if (bmin > 0)
                     VP_REQUIRE (c, hit, "tri-intersect/result", tn << " intersect() returned false for the axis-parallel line through the interior lattice point " << vs (H));
                 else if (bmin == 0)
-                    VP_REQUIRE (c, hit, "tri-intersect/exact-boundary-miss", tn << " intersect() returned false for the axis-parallel line through " << vs (H) << ", exactly on the boundary (barycentrics " << qstr (bx[0]) << " " << qstr (bx[1]) << " " << qstr (bx[2]) << "; 'between zero and one' is documented as inside)");
+                {
+                    // exactly on an edge or vertex: the statement speaks of the interior only, so either answer is
+                    // accepted here (the header's "between zero and one" reads as inclusive and the unchanged tree
+                    // answers true); when it IS true the point / barycentric / front checks below still apply
+                }
                 else
                     VP_REQUIRE (c, !hit, "tri-intersect/result", tn << " intersect() returned true for the axis-parallel line through the outside lattice point " << vs (H));
                 if (hit)
